@@ -67,7 +67,10 @@ def gen_cases(rng, tier):
                 cases.append({'k': k, 'desc': {'src': 'chain', 'length': 9, 'refocus': True}, 'init': [0, 1, 0, 1, 0], 'cycles': 6, 'env': env})
     for c in cases:
         c['obs'] = ['structure', 'plain', 'unrolled']
-    return cases
+    # a third of the inputs a second time: fresh construction, apply_modifiers(), the DURATION read first and only then the listing
+    # (a time memoised before the first listing of an unrolled copy must not survive the hand-off of the relation links)
+    extra = [dict(c, dur_first=True, obs=['structure', 'unrolled']) for i, c in enumerate(cases) if i % 3 == 0 and c['k'] in ('repcode', 'simplified')]
+    return cases + extra
 
 
 def corpus():
